@@ -29,7 +29,10 @@ _P = lambda n: sp.Symbol(n, positive=True)
 THALF = [_P("Th1"), _P("Th1") + _P("dTh")]      # two products, the second longer lived
 
 
-def setup(ctx, rest_times, facts, activate=True, TH=None):
+WEIGHTS = []       # one opaque positive weight per call of the activity oracle since the list was last cleared
+
+
+def setup(ctx, rest_times, facts, activate=True, TH=None, entries=1):
     """A Sample whose state is whatever Sample.calculate_activation records, with activation.activity replaced by
     an oracle that returns, for each of two products, the opaque activity Act_k(T) at every time T it is asked for."""
     P = lambda n: sp.Symbol(n, positive=True)
@@ -42,15 +45,22 @@ def setup(ctx, rest_times, facts, activate=True, TH=None):
         bound = dict(zip(sig, args)); bound.update(kw)
         from ptstat.symlib import iterate
         times = iterate(I_, bound["rest_times"])
-        return {r: [A(sp.sympify(T)) for T in times] for r, A in zip(recs, ACT)} if activate else {}
+        g = sp.Symbol(f"g{len(WEIGHTS) + 1}", positive=True)
+        WEIGHTS.append(g)
+        return {r: [g * A(sp.sympify(T)) for T in times] for r, A in zip(recs, ACT)} if activate else {}
     w = world(ctx, stubs={"activation.activity": oracle})
     I = w.I
     I.positive = list(facts)
     for k in (1, 2):
         recs.append(I.new_obj(f"rec{k}", None, {"Thalf_hrs": (TH or THALF)[k - 1]}, open_attrs=set()))
     S = I.get_class("activation.Sample")
-    comp = I.call(I.global_name("formulas", "formula"), [{w.atoms["isotope"]: sp.Integer(1)}], {})
+    atoms_ = {w.atoms["isotope"]: sp.Integer(1)}
+    if entries == 2:       # two formula entries (two isotopes) feeding the same products
+        atoms_[w.isotope("Fe", 54)] = sp.Integer(2)
+        w.give_iso_mass(w.isotope("Fe", 54), "Fe54")
+    comp = I.call(I.global_name("formulas", "formula"), [atoms_], {})
     smp = I.instantiate(S, [comp, P("M")], {}, name="sample", open_attrs=())
+    del WEIGHTS[:]
     I.call(I.getattr(smp, "calculate_activation"), [I.new_obj("env")], {"exposure": P("t_exp"), "rest_times": list(rest_times)})
     captured = {}
     tr, ftr = sp.Symbol("t_root", real=True), sp.Symbol("f_root", real=True)
@@ -82,16 +92,17 @@ def run(ctx):
     A0 = [P("A0_1"), P("A0_2")]
     # the activities the oracle hands out are those of the decay law: Act_k(T) = A0_k exp(-lam_k T)
     cons = lambda e: sp.sympify(e).replace(ACT[0], lambda x: A0[0] * sp.exp(-L[0] * x)).replace(ACT[1], lambda x: A0[1] * sp.exp(-L[1] * x))
-    total = lambda tt: sum(a * sp.exp(-l * tt) for a, l in zip(A0, L))
+    total = lambda tt: sum(WEIGHTS) * sum(a * sp.exp(-l * tt) for a, l in zip(A0, L))
 
-    for label, rts, facts, TH in (("rest times [T1, T2] with T1 < T2", [T1, T2], [T2 - T1], THALF),
-                                  ("rest times [T1, T2] with T2 < T1", [T1, T2], [T1 - T2], THALF),
-                                  ("rest times [0, T2]", [sp.Integer(0), T2], [T2], THALF),
-                                  ("rest times [T1, 0]", [T1, sp.Integer(0)], [T1], THALF),
-                                  ("a single rest time", [T1], [], THALF),
-                                  ("two products with the same half-life", [sp.Integer(0), T2], [T2], [THALF[0], THALF[0]])):
+    for label, rts, facts, TH, entries in (("rest times [T1, T2] with T1 < T2", [T1, T2], [T2 - T1], THALF, 1),
+                                           ("rest times [T1, T2] with T2 < T1", [T1, T2], [T1 - T2], THALF, 1),
+                                           ("rest times [0, T2]", [sp.Integer(0), T2], [T2], THALF, 1),
+                                           ("rest times [T1, 0]", [T1, sp.Integer(0)], [T1], THALF, 1),
+                                           ("a single rest time", [T1], [], THALF, 1),
+                                           ("two products with the same half-life", [sp.Integer(0), T2], [T2], [THALF[0], THALF[0]], 1),
+                                           ("two formula entries feeding the same products", [T1, T2], [T2 - T1], THALF, 2)):
         L = [ln2 / th for th in TH]
-        w, smp, cap, tr, ftr = setup(ctx, rts, facts, TH=TH)
+        w, smp, cap, tr, ftr = setup(ctx, rts, facts, TH=TH, entries=entries)
         I = w.I
         n0 = len(I.raises)
         res = I.call(I.getattr(smp, "decay_time"), [target], {})
@@ -165,6 +176,7 @@ def run(ctx):
             ACT[:] = NEW
             try:
                 cap.clear()
+                del WEIGHTS[:]
                 I.call(I.getattr(smp, "calculate_activation"), [I.new_obj("env2")], {"exposure": P("t_exp2"), "rest_times": [T3]})
                 I.call(I.getattr(smp, "decay_time"), [target], {})
                 fv2 = I.call(cap["f"], [t], {}) if "f" in cap else None
@@ -173,7 +185,7 @@ def run(ctx):
             stale = fv2 is None or any(sp.sympify(fv2).has(a) for a in old) or sp.sympify(fv2).has(T1)
             ctx.check(not stale, "R4", "decay_time after a second calculate_activation uses the new activities only",
                       f"f after re-activation is {_s(fv2)}", site)
-    ctx.floor("R1", 6); ctx.floor("R2", 6); ctx.floor("R3", 12); ctx.floor("R4", 7); ctx.floor("R5", 6)
+    ctx.floor("R1", 7); ctx.floor("R2", 7); ctx.floor("R3", 14); ctx.floor("R4", 8); ctx.floor("R5", 7)
 
     # no activation: documented 0
     w, smp, cap, tr, ftr = setup(ctx, [T1], [], activate=False)
